@@ -29,9 +29,9 @@ EXPLANATION = (
     'serialize and deSerialize use inverse shift/mask sequences in reverse field order with widths that fit; (7) at every call of '
     'makeMove/makeMoveB/makeSEEMove on a position that outlives the call (member or reference parameter; 8 named advancing '
     'functions excepted) every non-exceptional path to the exit or to the next make passes the matching unmake with the same move and undo record.'
-    ' (8) the en-passant mask tables hold, for each file, exactly the neighbouring squares on the capturing rank (finite evaluation over the 8 files) and makeMove records an en-passant square only under that mask test.')
+    ' (8) the en-passant mask tables hold, for each file, exactly the neighbouring squares on the capturing rank (finite evaluation over the 8 files) and makeMove records an en-passant square only under that mask test; (4, 5 widths) every UndoInfo field and every packed field of the compact form is as wide as the Position attribute it holds unless a stated value range is narrower; (9) every fresh en-passant store is followed by fixupEPSquare (the normal form readFEN produces). Three genuine violations of the property on the pinned tree are recorded as known findings (8-bit clock and 16-bit move number in the compact form; makeMove records an en-passant square whose capture is illegal).')
 UNDECIDED = ('equality of hash keys of rule-equal positions as values, bit-identity after arbitrary histories, FEN round trip of '
-             'counters (value-level); the 8-bit half-move field of the compact form narrows clocks >= 256 (documented narrowing).')
+             'counters (value-level).')
 ASSUMPTIONS = ['material domain: <= 16 men per side, pawns + promoted officers <= 8 per side (the property\'s domain)',
                'int is 32 bits']
 
@@ -77,6 +77,7 @@ def run(fb, rep, tier):
     c5_serialize(fb, rep)
     c7_pairing(fb, rep)
     c8_ep_square(fb, rep)
+    c9_ep_normal_form(fb, rep)
 
 
 # ----------------------------------------------------------------------------- .1
@@ -468,6 +469,40 @@ def c3_hash_tables(fb, rep):
 
 # ----------------------------------------------------------------------------- .4
 
+# value ranges of saved attributes that are narrower than their storage type (one reason each); without an entry the
+# undo field must be as wide as the Position field it saves (the half-move clock has no bound inside the domain:
+# 300-ply walks without capture or pawn move, FEN clocks)
+UNDO_RANGE = {
+    'capturedPiece': (5, 'piece codes 0..12, signed'),
+    'castleMask': (5, 'four castling flags, values 0..15, signed'),
+}
+
+PACK_RANGE = {
+    'castleMask': (4, 'four castling flags, values 0..15'),
+    'epSquare': (8, 'squares 0..63 or none, coded in one byte'),
+    'whiteMove': (1, 'bool'),
+}
+
+_SCALAR_BITS = {'bool': 8, 'char': 8, 'signed char': 8, 'unsigned char': 8, 'short': 16, 'unsigned short': 16, 'int': 32, 'unsigned int': 32,
+                'long': 64, 'unsigned long': 64, 'long long': 64, 'unsigned long long': 64}
+
+
+def _field_bits(fb, fl, elem=False):
+    if fl is None:
+        return None
+    if fl.get('bits'):
+        return int(fl['bits'])
+    ct = (fl.get('ct') or '').replace('const ', '').strip()
+    if elem and '[' in ct:
+        ct = ct[:ct.index('[')].strip()
+    if ct in _SCALAR_BITS:
+        return _SCALAR_BITS[ct]
+    rec = fb.record(fl.get('rc') or ct)
+    if rec and rec.get('size'):
+        return int(rec['size']) * 8
+    return None
+
+
 def c4_undo(fb, rep):
     clause = 'C02.4'
     ui = rep.need(clause, fb.record('UndoInfo'), 'record UndoInfo')
@@ -515,6 +550,28 @@ def c4_undo(fb, rep):
                 return ap(e.get('l')) == 'this.' + _fld
             return e.get('k') == 'call' and cname(e) in (setters.get(_fld), P + '::setPiece')
         R.must_pass_between(rep, um, clause, 'unMakeMove restores %s from the undo record on every path' % fld, None, R.at_exit, restores)
+    # the undo record is wide enough for every value of the attribute it saves
+    prec = fb.record(P)
+    if rep.need(clause, prec, 'record Position') is not None:
+        pf = {}
+        todo = [prec]
+        while todo:
+            r_ = todo.pop()
+            for f_ in r_.get('fields', []):
+                pf.setdefault(f_['n'], f_)
+            todo += [fb.record(b_) for b_ in r_.get('bases', []) if fb.record(b_)]
+        for fl in ui['fields']:
+            have = _field_bits(fb, fl)
+            src = pf.get(fl['n']) or (pf.get('squares') if fl['n'] == 'capturedPiece' else None)
+            src_bits = _field_bits(fb, src, elem=True) if src else None
+            need = src_bits
+            why = 'as wide as Position::%s' % (src['n'] if src else '?')
+            if fl['n'] in UNDO_RANGE and need is not None and UNDO_RANGE[fl['n']][0] < need:
+                need = UNDO_RANGE[fl['n']][0]
+                why = UNDO_RANGE[fl['n']][1]
+            rep.ob(clause, 'K11 width agreement', 'UndoInfo::%s can hold every value of the attribute it saves' % fl['n'],
+                   have is not None and need is not None and have >= need, '%s:%s' % (ui.get('file'), fl.get('ln')),
+                   'has %s bits, needs %s (%s)' % (have, need, why), 'UndoInfo')
     # full-move counter: ++ and -- under the same condition
     def counter_guard(f, op):
         for b, i, e in f.events():
@@ -638,6 +695,26 @@ def c5_serialize(fb, rep):
             if not _same_field(src, uf):
                 ok = False
     rep.ob(clause, 'K10 inverse layout', 'serialize packs and deSerialize unpacks the same fields with the same widths in reverse order', ok, se.where, detail, se.sname)
+    # each packed field is wide enough for every value of the attribute (else the compact form does not read back identical)
+    prec = fb.record(P)
+    pf = {}
+    todo = [prec] if prec else []
+    while todo:
+        r_ = todo.pop()
+        for f_ in r_.get('fields', []):
+            pf.setdefault(f_['n'], f_)
+        todo += [fb.record(b_) for b_ in r_.get('bases', []) if fb.record(b_)]
+    for w, m, src in packs:
+        name = (src or '').split('.')[-1].replace('()', '')
+        fld = next((n_ for n_ in pf if n_ == name or (name.startswith(n_) and n_ in ('epSquare',))), None)
+        if fld is None or w is None:
+            continue
+        need = _field_bits(fb, pf[fld])
+        why = 'as wide as Position::%s' % fld
+        if fld in PACK_RANGE and need is not None and PACK_RANGE[fld][0] < need:
+            need, why = PACK_RANGE[fld]
+        rep.ob(clause, 'K11 width agreement', 'the compact form stores %s in a field (%s bits) that can hold every value of it' % (fld, w), need is not None and w >= need, se.where,
+               'packed in %s bits, needs %s (%s)' % (w, need, why), se.sname)
     # board nibbles
     def word_ids(f):
         out = set()
@@ -759,3 +836,46 @@ def c8_ep_square(fb, rep):
     k = C01.ep_tables(fb, rep, clause)
     rep.floor(clause, 'en-passant mask tables', k, 2)
     C11.ep_guard(fb, rep, clause)
+
+
+# ----------------------------------------------------------------------------- .9
+
+def c9_ep_normal_form(fb, rep):
+    """K4: readFEN leaves the en-passant square set only when an en-passant capture is legal (fixupEPSquare), so
+    a position reads back from its FEN identical - and two positions that are equal under the rules hash equal -
+    only if every other function that records a *fresh* en-passant square produces the same normal form: the store
+    is followed on every path by fixupEPSquare on that position.  Clearing the square and restoring a saved value
+    are not fresh stores."""
+    clause = 'C02.9'
+    setter = P + '::setEpSquare'
+    fix = 'TextIO::fixupEPSquare'
+    n_fresh = 0
+    per_func = {}
+    for f in fb.funcs.values():
+        if not (f.has_cfg and R.in_engine(f)):
+            continue
+        saved = set(_local_ids(f, lambda t: any(n.get('k') == 'call' and cname(n) == P + '::getEpSquare' for n in walk(t))))
+        for b, i, e in f.events():
+            if not (e.get('k') == 'call' and cname(e) == setter and e.get('args')):
+                continue
+            a = _strip(e['args'][0])
+            while isinstance(a, dict) and a.get('k') == 'ctor' and a.get('args'):
+                a = _strip(a['args'][0])
+            if isinstance(a, dict) and a.get('k') == 'int' and a.get('cv') == -1:
+                continue            # clears the square
+            if isinstance(a, dict) and a.get('k') == 'un' and a.get('op') == '-' and (_strip(a.get('e')) or {}).get('cv') == 1:
+                continue
+            if isinstance(a, dict) and a.get('k') == 'mem' and (a.get('f') or '').startswith('UndoInfo::'):
+                continue            # restores the saved value
+            if isinstance(a, dict) and a.get('k') == 'var' and a.get('id') in saved:
+                continue            # restores a value read from the same kind of object
+            if f.sname == fix:
+                continue
+            n_fresh += 1
+            followed = f.path_avoiding((b, i), R.at_exit, lambda x: x is not None and (x.get('k') == 'throw' or (x.get('k') == 'call' and cname(x) == fix))) is None
+            per_func.setdefault(f.sname, []).append((followed, e, f))
+    rep.floor(clause, 'fresh en-passant stores in the engine program', n_fresh, 3)
+    for name, lst in sorted(per_func.items()):
+        bad = [x for x in lst if not x[0]]
+        rep.ob(clause, 'K4 normal form', '%s: a freshly recorded en-passant square is normalised (kept only if an en-passant capture is legal) before the position is used' % name,
+               not bad, R.site(lst[0][2], (bad or lst)[0][1]), '%d fresh store(s), %d not followed by fixupEPSquare' % (len(lst), len(bad)), name)
